@@ -70,6 +70,21 @@ func gen(tier string, seed int64) []hx.Scenario {
 					}
 				}
 			}
+			// responses that reach only the dealer: two (or three) verifiers stay silent towards the others, one of them
+			// holds a bad share and complains to the dealer; the timeout passes, then the dealer justifies that complaint
+			if n >= 3 {
+				for a := 0; a < n; a++ {
+					for _, kind := range []string{"share+d", "honest"} {
+						d := append([]string{}, honest...)
+						d[a] = kind
+						b := (a + 1) % n
+						hs = append(hs, hist{n, t, d, fmt.Sprintf("silent:%d+%d", a, b), "correct", "before", "id", false})
+						if n >= 4 {
+							hs = append(hs, hist{n, t, d, fmt.Sprintf("silent:%d+%d+%d", a, b, (a+2)%n), "correct", "before", "rev", false})
+						}
+					}
+				}
+			}
 			// two faulty deals (exhaustive over the complaint-producing kinds for n = 3, seeded sample otherwise)
 			ck := []string{"share+d", "commit+d", "T=n+1", "none", "wrongidx"}
 			if n >= 3 {
